@@ -224,12 +224,18 @@ def run_calls(ctx, classes, scen):
             port = None if call.get("no_port") else rig.port
             helper_exc = None
             rig.plan.arm()
-            try:
+
+            def invoke(call=call, port=port):
                 if call["p"] in ("command", "query"):
-                    getattr(ebb_serial, call["p"])(port, call["text"], *( [False] if call.get("quiet") else []))
+                    getattr(ebb_serial, call["p"])(port, call["text"], *([False] if call.get("quiet") else []))
                 else:
                     mod = ebb_serial if call["p"].startswith("serial.") else ebb_motion
                     getattr(mod, call["p"].split(".")[-1])(port, *call.get("args", []))
+            try:
+                if scen.get("headroom"):
+                    at_depth(scen["headroom"], invoke)
+                else:
+                    invoke()
             except Exception as exc:        # observed below
                 helper_exc = exc
             finally:
@@ -273,6 +279,41 @@ def gen_request(rng):
     if c < 0.7:
         return "query", rng.choice(OK_QUERIES) + "\r", "request:OK-terminated query"
     return "query", rng.choice(NOOK_QUERIES) + "\r", "request:no-OK query"
+
+
+def at_depth(headroom, fn):
+    """Call fn() from so deep in the call stack that only `headroom` interpreter frames are left below the
+    recursion limit - an application calls the library from inside its own (GUI, plug-in, recursive
+    document walk) stack, not from the top of a test script."""
+    import sys
+    depth = 0
+    frame = sys._getframe()
+    while frame is not None:
+        depth += 1
+        frame = frame.f_back
+    n = sys.getrecursionlimit() - depth - headroom
+
+    def descend(k):
+        if k <= 0:
+            return fn()
+        return descend(k - 1)
+    return descend(n)
+
+
+def deep_stack(ctx, rng):
+    """Conforming, much-delayed replies (dozens of empty reads before each line) requested by a caller
+    that has only 60-120 frames of stack left."""
+    calls = []
+    for _ in range(rng.randint(2, 5)):
+        prim, text, cls = gen_request(rng)
+        k = rng.choice((40, 60, 80, 99, 100))
+        faults = [{"op": "read", "at": 0, "kind": "empty", "count": k}]
+        if prim == "query" and not is_nook(text) and rng.random() < 0.6:
+            faults.append({"op": "read", "at": k + 1, "kind": "empty", "count": rng.choice((30, 70, 100))})
+        calls.append({"p": prim, "text": text, "classes": [cls], "faults": faults, "conforming": True,
+                      "quiet": rng.random() < 0.3})
+    scen = {"eol": "\r\n", "calls": calls, "timeout": 1.0, "headroom": rng.choice((60, 80, 120))}
+    run_calls(ctx, ["caller deep in its call stack (60-120 frames left), long-delayed conforming replies"], scen)
 
 
 def history(ctx, rng, with_faults):
@@ -363,6 +404,9 @@ def run(ctx):
         helpers(ctx, rng)
     for _ in range(ctx.budget(200, 2000)):
         no_port(ctx, rng)
+    for _ in range(ctx.budget(150, 1500)):
+        deep_stack(ctx, rng)
+    ctx.need("caller deep in its call stack (60-120 frames left), long-delayed conforming replies", 300)
     seen = ctx.extra.pop("_triples", set())
     ctx.extra["distinct_request_fault_position_triples"] = len(seen)
     ctx.extra["request_fault_position_examples"] = sorted(seen)[:10]
